@@ -305,6 +305,17 @@ pub fn generate(g: &mut Gen, thorough: bool) {
             .collect();
         case(g, "default", def, "F", "geo", 5e-6, &pts, "tmerc-across-the-antimeridian", true);
     }
+    // inverse first, from points of the plane: the same points come back, also where the longitudes in between lie
+    // beyond the antimeridian as counted from the central meridian
+    for (def, ex, ey) in [
+        ("merc lon_0=150", 1.9e7, 8.0e6), ("merc lon_0=-160 k_0=0.9996 x_0=1000 y_0=-2000", 1.9e7, 8.0e6), ("merc lat_ts=56 lon_0=100 ellps=intl", 1.0e7, 5.0e6), ("webmerc", 1.9e7, 1.0e7),
+        ("lcc lat_1=33 lat_2=45 lon_0=150", 4.0e6, 3.0e6), ("lcc lat_1=-40 lon_0=-170", 4.0e6, 3.0e6), ("laea lat_0=52 lon_0=170", 3.0e6, 3.0e6), ("laea lat_0=90 lon_0=-150", 3.0e6, 3.0e6),
+        ("tmerc lon_0=177 k_0=0.9996 x_0=500000", 3.0e5, 6.0e6), ("utm zone=60", 3.0e5, 6.0e6), ("somerc lat_0=46.95 lon_0=7.44", 2.0e5, 2.0e5), ("omerc latc=4 lonc=115 alpha=53.3 gamma_c=53.1", 4.0e5, 4.0e5),
+    ] {
+        let x_0 = if def.contains("x_0=500000") || def.starts_with("utm") { 500000.0 } else if def.contains("x_0=1000") { 1000.0 } else { 0.0 };
+        let pts: Vec<[f64; 4]> = (0..8).map(|i| [x_0 + ex * (i as f64 - 3.5) / 3.6, g.rng.uniform(-ey, ey), 10.0, 2000.0]).collect();
+        case(g, "default", def, "I", "cart", 1e-5, &pts, "projections-inv-first", true);
+    }
     // the pole a cone points to, after other points of the same set (nothing of a point stays behind for the next)
     for (def, pole) in [("lcc lat_1=33 lat_2=45 lon_0=10", 1.0), ("lcc lat_1=57 lat_0=57 lon_0=12 k_0=0.9996", 1.0), ("lcc lat_1=-33 lat_2=-45 lon_0=20 ellps=intl", -1.0), ("laea lat_0=90 lon_0=10", 1.0), ("laea lat_0=-90", -1.0)] {
         let hp = std::f64::consts::FRAC_PI_2 * pole;
